@@ -119,6 +119,20 @@ theorem C16_former_root_loses_access (s : State) (new : String) (t : Target) (hr
   unfold gated run gatedGuard hasPermission
   simp [firstErr, hroot, hnl, hdiff, hnew]
 
+/-- a hand-over removes nobody from the list: whatever `changeRoot` does (accepted or refused), the contracts are the ones there
+    were, and a listed contract is served afterwards exactly as before -/
+theorem C16_hand_over_keeps_listed_contracts (s : State) (sender new c : String) (t : Target) (hc : c ∈ s.valid)
+    (hl : canon c ∈ s.contracts) :
+    (changeRoot s sender new).1.contracts = s.contracts ∧ (gated (changeRoot s sender new).1 t c).2 = none := by
+  have hcs : (changeRoot s sender new).1.contracts = s.contracts ∧ (changeRoot s sender new).1.valid = s.valid := by
+    unfold changeRoot run
+    cases changeRootGuard s sender new with
+    | none => exact ⟨rfl, rfl⟩
+    | some e => exact ⟨rfl, rfl⟩
+  refine ⟨hcs.1, ?_⟩
+  rw [C16_gated_iff_root_or_listed]
+  exact ⟨by rw [hcs.2]; exact hc, Or.inl (by rw [hcs.1]; exact hl)⟩
+
 /-- histories: whatever happened before, acceptance of a gated operation is decided by the sudoers *at the time of the call* -/
 def runOps (s : State) : List Op → State
   | [] => s
